@@ -7,6 +7,7 @@ package main
 
 import (
 	"fmt"
+	"os"
 	"regexp"
 	"strings"
 
@@ -278,8 +279,8 @@ func leftoverOrder(f *lib.Flags, res *lib.Result) {
 // one (position-free; the submodule's own tree has no counterpart).
 func leftoverChains(f *lib.Flags, res *lib.Result) {
 	depth := 3
-	if f.Thorough() {
-		depth = 4
+	if f.Thorough() || os.Getenv("C13C_CHAIN_DEPTH") == "4" {
+		depth = 4 // (the environment variable is a maintenance aid: the long chains in the quick tier)
 	}
 	chains := gen.LeftoverChains(depth)
 	var cases []rescorr.Case
